@@ -77,7 +77,7 @@ func runC06(p *Prog, r *Result) {
 	checkRecursionBounded(p, r, pkg, "R06m")
 	r.Rule("R06n", "every field that Walk, Pos or End dereferences without a nil test holds a value that is not nil wherever package syntax builds the node, unless an error was reported by then", 30)
 	checkMandatoryFieldsSet(p, r, pkg, "R06n", c06NilExceptions)
-	r.Rule("R06o", "the here-document body reader reads input only with a body pending: a parse over a pipe or terminal does not wait for a byte it has no use for (shared with C08 R08h)", 5)
+	r.Rule("R06o", "the here-document body reader reads input only with a body pending: a parse over a pipe or terminal does not wait for a byte it has no use for (shared with C08 R08h)", 6)
 	checkBodyReaderNeedsBody(p, r, pkg, "R06o")
 	r.Rule("R06k", "the read buffer is indexed at the cursor only past a test of the cursor against its length or past a non-zero fill(); fill stores the cursor only as 0 (or under a length test)", 5)
 	checkCursorContract(p, r, pkg, "R06k")
@@ -902,6 +902,24 @@ func unreadBound(info *types.Info, e *FEdge) (int64, bool) {
 				return k, true
 			}
 		}
+		// len(p.bs) - int(p.bsp) < K, with K a constant or the result of a function that only returns constants
+		if sub, ok := ast.Unparen(x.X).(*ast.BinaryExpr); ok && sub.Op == token.SUB && isLenBs(sub.X) {
+			if k0, ok := isBsp(sub.Y); ok && k0 == 0 {
+				var bound int64 = -1
+				if tv := info.Types[x.Y]; tv.Value != nil {
+					bound, _ = constant.Int64Val(constant.ToInt(tv.Value))
+				} else if c, ok := ast.Unparen(x.Y).(*ast.CallExpr); ok {
+					if fn := calleeOf(info, c); fn != nil {
+						if m, ok := constReturnMax[fn]; ok {
+							bound = m
+						}
+					}
+				}
+				if bound >= 0 && ((x.Op == token.LSS && e.Pol) || (x.Op == token.GEQ && !e.Pol)) {
+					return bound, true
+				}
+			}
+		}
 	case *ast.CallExpr:
 		if fn := calleeOf(info, x); fn != nil && fn.Pkg() != nil && fn.Pkg().Path() == "unicode/utf8" && fn.Name() == "FullRune" && !e.Pol {
 			if se, ok := ast.Unparen(x.Args[0]).(*ast.SliceExpr); ok && se.High == nil {
@@ -916,8 +934,12 @@ func unreadBound(info *types.Info, e *FEdge) (int64, bool) {
 	return 0, false
 }
 
+// constReturnMax: functions of package syntax every return of which is an integer constant, with the largest.
+var constReturnMax = map[*types.Func]int64{}
+
 func checkFillGuards(p *Prog, r *Result, pkg *packages.Package) {
 	info := pkg.TypesInfo
+	computeConstReturnMax(p, info)
 	fill := lookupFunc(pkg, "Parser.fill")
 	if fill == nil {
 		r.Fatalf("anchor Parser.fill not found")
@@ -1273,4 +1295,36 @@ func assertByPoolInvariant(p *Prog, pkg *packages.Package, rel string, ta *ast.T
 		return "", false
 	}
 	return fmt.Sprintf("sync.Pool idiom: %s's New returns only %s and every Put on it passes one", poolObj.Name(), types.TypeString(want, nil)), true
+}
+
+func computeConstReturnMax(p *Prog, info *types.Info) {
+	for _, fd := range p.AllFuncDecls("syntax") {
+		fo, ok := info.Defs[fd.Name].(*types.Func)
+		if !ok || fd.Body == nil || fd.Type.Results == nil || len(fd.Type.Results.List) != 1 {
+			continue
+		}
+		var best int64 = -1
+		all := true
+		inspectNoLit(fd.Body, func(n ast.Node) bool {
+			if rs, ok := n.(*ast.ReturnStmt); ok {
+				if len(rs.Results) != 1 {
+					all = false
+					return true
+				}
+				tv := info.Types[rs.Results[0]]
+				if tv.Value == nil || tv.Value.Kind() != constant.Int {
+					all = false
+					return true
+				}
+				v, _ := constant.Int64Val(tv.Value)
+				if v > best {
+					best = v
+				}
+			}
+			return true
+		})
+		if all && best >= 0 {
+			constReturnMax[fo] = best
+		}
+	}
 }
